@@ -640,3 +640,88 @@ def batched_expectation_rule(chk, src, rule):
         chk.ob(rule, f"Mps.expectations cached path [{lname}]", not problems, fi.where, problems[:2] or "every operator: each site once, with its own matrix", "every operator: each site once, with its own matrix",
                line=fi.node.lineno, detail="batched expectation values: " + (problems[0] if problems else "") + " - a cached partial environment that overlaps the part contracted on the fly, or belongs to "
                                                                                                                   "another operator, gives a value that differs from the one-by-one path")
+
+
+# ---------------------------------------------------------------------------------------------- the site update after a decomposition
+def update_ms_rule(chk, src, rule):
+    """abstract run of MatrixProduct._update_ms on a 3-site chain of abstract tensors (state and operator form, both directions, with and without singular values):
+    the isometric factor, restored to the site's axis order, replaces the site; the other factor is contracted into the neighbour on the sweep side over the bond between
+    them; both factors, the singular values and the labels are cut by the one kept count; the singular values are multiplied in exactly once (for a state: into the
+    neighbour, so that the weights travel with the centre); the labels of the new bond and the label centre move with it"""
+    from .. import ntensor as NTm
+    from ..ntensor import NT, Leg
+    fi = src.func(MP, "MatrixProduct._update_ms")
+    resolve = class_resolver(src, {"Mps": MPS})
+    bonds, ph, qh, K, m = [2, 3, 5, 7], [11, 13, 17], [19, 23, 29], 31, 6
+    for is_mpo in (False, True):
+        rank = 4 if is_mpo else 3
+        for to_right in (True, False):
+            for with_sigma in (True, False):
+                edges = []
+
+                def site(i):
+                    legs = [Leg(("S", i, 0), bonds[i]), Leg(("S", i, 1), ph[i])] + ([Leg(("S", i, 2), qh[i])] if is_mpo else []) + [Leg(("S", i, rank - 1), bonds[i + 1])]
+                    return NT(f"S{i}", legs, edges)
+                me = Chain(3, to_right, cls="Mps", is_mpo=is_mpo)
+                me.sites = [site(i) for i in range(3)]
+                me.qn = [f"old labels {k}" for k in range(4)]
+                me.qnidx = 1
+                idx = 1
+                inner = [(("S", idx, 1), ph[idx])] + ([(("S", idx, 2), qh[idx])] if is_mpo else [])
+                if to_right:
+                    u = NT("u", [Leg([(("S", idx, 0), bonds[idx])] + inner, 0), Leg(("new",), K)], edges)
+                    vt = NT("vt", [Leg(("new",), K), Leg(("S", idx, rank - 1), bonds[idx + 1])], edges)
+                else:
+                    u = NT("u", [Leg(("S", idx, 0), bonds[idx]), Leg(("new",), K)], edges)
+                    vt = NT("vt", [Leg(("new",), K), Leg(inner + [(("S", idx, rank - 1), bonds[idx + 1])], 0)], edges)
+                sigma = NT("sigma", [Leg(("new",), K)], edges) if with_sigma else None
+                qnl, qnr = [f"l{k}" for k in range(K)], [f"r{k}" for k in range(K)]
+                npx = NTm.np_namespace(linalg=OpenSym("linalg", make=lambda t: Blob("norm")))
+                it = SymInterp(src, resolve, {"np": npx, "xp": npx, "tensordot": NTm.tensordot, "moveaxis": NTm.moveaxis, "logger": Blob("logger"), "asnumpy": lambda x: x, "asxp": lambda x: x,
+                                              "Matrix": lambda x, *a: x})
+                it.max_depth = 10
+                problems = []
+                try:
+                    it.call_function(fi, [me, idx, u, vt], {"sigma": sigma, "qnlset": qnl, "qnrset": qnr, "m_trunc": m})
+                except (ValueError, SymRaise) as e:
+                    problems.append(f"{type(e).__name__}: {e}")
+                nb = idx + 1 if to_right else idx - 1
+                if not problems:
+                    t_site, t_nb = me.sites[idx], me.sites[nb]
+                    phys = [("S", idx, a_) for a_ in range(1, rank - 1)]
+                    want_site = ([("S", idx, 0)] + phys + [("new",)]) if to_right else ([("new",)] + phys + [("S", idx, rank - 1)])
+                    nphys = [("S", nb, a_) for a_ in range(1, rank - 1)]
+                    want_nb = ([("new",)] + nphys + [("S", nb, rank - 1)]) if to_right else ([("S", nb, 0)] + nphys + [("new",)])
+                    if not isinstance(t_site, NT) or t_site.keys() != want_site:
+                        problems.append(f"site {idx} becomes {t_site!r}; expected axes {want_site}")
+                    if not isinstance(t_nb, NT) or t_nb.keys() != want_nb:
+                        problems.append(f"site {nb} becomes {t_nb!r}; expected axes {want_nb}")
+                    want_edge = frozenset([(("S", idx, rank - 1), False), (("S", nb, 0), False)]) if to_right else frozenset([(("S", nb, rank - 1), False), (("S", idx, 0), False)])
+                    got_edges = {frozenset([(a, ca), (b, cb)]) for a, ca, b, cb in edges}
+                    if got_edges != {want_edge}:
+                        problems.append(f"contractions {sorted(map(sorted, got_edges))}; expected only the bond between sites {idx} and {nb}")
+                    if not problems:
+                        new_s = [l for l in t_site.legs if l.key() == ("new",)][0]
+                        new_n = [l for l in t_nb.legs if l.key() == ("new",)][0]
+                        if new_s.cut != m or new_n.cut != m:
+                            problems.append(f"the new bond is cut to {new_s.cut} on site {idx} and to {new_n.cut} on site {nb}; kept count {m}")
+                        n_sig = ("sigma" in new_s.scaled) + ("sigma" in new_n.scaled)
+                        if with_sigma and n_sig != 1:
+                            problems.append(f"the singular values are multiplied in {n_sig} times")
+                        elif with_sigma and not is_mpo and "sigma" not in new_n.scaled:
+                            problems.append("the singular values stay on the isometric side: the weights must travel with the centre into the next site")
+                        elif not with_sigma and n_sig:
+                            problems.append("singular values multiplied in although none were given")
+                        sc = sorted(t_site.scale) + ["|"] + sorted(t_nb.scale)
+                        if sc not in (["|"], ["norm", "|", "1/norm"], ["1/norm", "|", "norm"]):
+                            problems.append(f"scalar factors {sc}: the two factors may only be rebalanced by a common factor and its inverse")
+                    want_q = (qnl[:m], idx + 1, idx + 1) if to_right else (qnr[:m], idx, idx - 1)
+                    got_q = me.qn[want_q[1]]
+                    if list(got_q) != want_q[0] or me.qnidx != want_q[2]:
+                        problems.append(f"labels of bond {want_q[1]}: {str(list(got_q))[:60]}, centre {me.qnidx}; expected the first {m} labels of the {'left' if to_right else 'right'} factor and centre {want_q[2]}")
+                    untouched = [k_ for k_ in range(4) if k_ != want_q[1] and me.qn[k_] != f"old labels {k_}"]
+                    if untouched:
+                        problems.append(f"labels of bonds {untouched} were changed")
+                chk.ob(rule, f"_update_ms[{'operator' if is_mpo else 'state'}, to_right={to_right}, {'with' if with_sigma else 'without'} singular values]", not problems, fi.where,
+                       problems[:3] or "isometry on the site, remainder into the neighbour, one cut, weights once", "isometry on the site, remainder into the neighbour, one cut, weights once", line=fi.node.lineno,
+                       detail="_update_ms: " + (problems[0] if problems else ""))
